@@ -153,7 +153,7 @@ pub fn c08() -> Check {
         "exploration",
         "C01 histories with many verifier passes and reopens (orphan clean-up) and scan cursors held across compactions; after every operation every sst named by the live tree and by the manifest on disk (independent parse) must exist in sst/; a verifier pass must not change sst/ and must never remove the live MANIFEST; after every operation the full read-back still equals the model (so a wrongly removed file shows up as an error or a wrong read). Non-trivial: >= 1 verifier pass that unlinked files and >= 1 reopen after a compaction; distinct by structural hash.",
     )
-    .assume("crash points inside verifier passes and trash moves are explored by the C02 fault enumerator, not here")
+    .assume("part crash-in-cleanup re-uses the C02 fault enumerator restricted to crash points inside verifier passes, reopen-time orphan clean-up and trash moves: after the crash a fresh process reopens, reads everything back, runs a verifier pass, reopens and reads again; contents must equal the acknowledged state both times")
     .assume("as C01: single-threaded step driving, R-D / R-R exclusions")
     .pbt(StoreProp {
         name: "files",
@@ -165,6 +165,7 @@ pub fn c08() -> Check {
         thorough: (2500, 400, 250),
         nontrivial: |s| s.verify_unlinked >= 1 && s.reopens >= 1 && s.merges + s.gcs >= 1,
     })
+    .part(crate::crash::CrashEnum { name: "crash-in-cleanup", focus: crate::crash::Focus::CleanUp, quick: 8, thorough: 120, quick_points: 60 })
 }
 
 pub fn c07() -> Check {
@@ -215,4 +216,17 @@ pub fn c20() -> Check {
         thorough: (3000, 200, 400),
         nontrivial: |s| s.stalls_relieved >= 1,
     })
+}
+
+pub fn c02() -> Check {
+    let mut c = Check::new(
+        "C02",
+        "fault_enumeration",
+        "proptest-generated KeyValueStore histories (8..50 ops quick, ..90 thorough: put/del/batch/flush/compaction steps/verifier passes/reopen over generated options) are executed in a child process under an in-binary libc shim that numbers every file-system mutating call under the store root (open-create, write, pwrite, fsync, fdatasync, ftruncate, rename, link, unlink, mkdir, rmdir); the history is then re-executed and killed (_exit) before call k for every k (thorough) or a class-stratified sample of k (quick, all k when the history has few calls), under persistence model (a) all completed calls persist, (b) lose-all: bytes after each file's last successful sync are dropped, (b) torn: a generated prefix of them survives, and with call k failing with EIO / ENOSPC followed by a lose-all crash at the first reported error. A third, fresh process reopens the image, reads every key by point read and full scan, runs a verifier pass, reopens and reads again. Accepted states: model after the acknowledged ops, or that plus the one in-flight op applied completely. Reopen must succeed except for torn cuts (explicit error tolerated, panic never). Non-trivial: >= 1 write was acknowledged before the crash point; distinct by (history, k, mode).",
+    )
+    .assume("directory-entry durability is not modelled (neither model in the property loses directory operations)")
+    .assume("an operation that returned Ok counts as acknowledged; an injected failure that the store swallows is only a violation if an acknowledged write is then lost")
+    .assume("recovered images that satisfy the R-D predicate (two live ssts overlapping in key range and timestamp range) are excluded and counted");
+    c.watchdog_quick_s = 1500;
+    c.part(crate::crash::CrashEnum { name: "crash-enumeration", focus: crate::crash::Focus::All, quick: 10, thorough: 150, quick_points: 40 })
 }
